@@ -35,7 +35,9 @@ def gen_case(rng, tier, i):
             "via_steps": i % 8 == 5,        # one case in eight is driven by step() alone
             # one case in eight shares the process with a second, live simulator of the same kind (its own model, initialised
             # after the judged one and run after it): two simulators have nothing in common
-            "neighbour": i % 8 == 2}
+            "neighbour": i % 8 == 2,
+            # one case in eight runs on a simulator that was initialised, stepped twice, torn down with cleanup() and is now reused
+            "torn_down": i % 8 == 6}
 
 
 def shard_teardown(tier, ctx):
@@ -53,6 +55,13 @@ def run_case(case, ctx):
     ref.run()
     h = Harness(prog)
     try:
+        if case.get("torn_down"):
+            ctx.count("runs_on_a_torn_down_and_reused_simulator")
+            if h.cmd("initialize") == "ok":
+                h.cmd("step"); h.wait_quiescent(20)
+                h.cmd("step"); h.wait_quiescent(20)
+            h.cmd("cleanup")
+            h.reset_logs()
         out = h.cmd("initialize")
         if out != "ok":
             ctx.viol(f"initialize-raises:{out}", where)
